@@ -91,6 +91,26 @@ def generate(repo):
         ("alg.sv_normalize", _calls_copy(sv_normalize)),
         ("list.__deepcopy__.object_columns", _deepcopies_object_columns(TimedList)),
     ]
+    # the public surface of the anchored classes: every function / property / class- / static method written in the
+    # class body (dunder methods included, single-underscore helpers and dataclass-generated methods excluded);
+    # the per-column getters made by `list_props` / `map_props` are named "<Class>.<column>"
+    from reamber.algorithms.convert.ConvertBase import ConvertBase
+    from reamber.algorithms.pattern.Pattern import Pattern
+    from reamber.base.lists.BpmList import BpmList
+    from reamber.base.lists.notes.HoldList import HoldList
+    surface = []
+    for cls in (TimedList, HoldList, BpmList, Map, MapSet, ConvertBase, Pattern):
+        for n, v in vars(cls).items():
+            f = v.fget if isinstance(v, property) else getattr(v, "__func__", v)
+            if not inspect.isfunction(f):
+                continue
+            if n.startswith("_") and not (n.startswith("__") and n.endswith("__")):
+                continue
+            if f.__code__.co_filename == "<string>":        # generated by @dataclass
+                continue
+            surface.append(f"{cls.__name__}.{n}")
+    file_writers = [g for g, cls in [("osu", OsuMap), ("quaver", QuaMap), ("sm", SMMapSet), ("bms", BMSMap), ("o2jam", O2JMapSet)]
+                    if callable(getattr(cls, "write_file", None))]
     b = lambda x: "true" if x else "false"
     txt = f"""/- GENERATED by harness/translators/effects.py from the reamberPy source — do not edit. -/
 namespace Reamber.Generated.Effects
@@ -109,6 +129,15 @@ def makesCopy : List (String × Bool) :=
 
 /-- converter entry points that assign `result.tags = source.tags` (the list object itself; D38) -/
 def assignsTags : List String := {lst(tags, string)}
+
+/-- games whose chart (set) class has a `write_file` method, as "write_file.<game>" -/
+def fileWriterOps : List String := {lst(["write_file." + w for w in file_writers], string)}
+
+/-- the public surface of TimedList, HoldList, BpmList, Map, MapSet, ConvertBase, Pattern: every function, property,
+class method and static method written in the class body (dunder methods included; `_helpers` and the methods
+`@dataclass` generates excluded), as "<Class>.<name>" -/
+def publicSurface : List String :=
+  {lst(surface, string)}
 
 end Reamber.Generated.Effects
 """
